@@ -194,6 +194,13 @@ func (ch *channel) addInitDataAndUpdateTimescale(stream stream, init *mp4.InitSe
 	}
 
 	p := ch.mpd.Periods[0]
+	for _, asSet := range p.AdaptationSets {
+		for _, rep := range asSet.Representations {
+			if rep.Id == stream.trName {
+				return nil // init segment sent again: the track has its Representation already
+			}
+		}
+	}
 	var currAsSet *m.AdaptationSetType
 	for _, asSet := range p.AdaptationSets {
 		asRole := ""
@@ -441,9 +448,11 @@ func (ch *channel) addTrData(rd *trData) {
 	if firstVideoTrack {
 		ch.masterTrName = rd.name
 	}
+	if _, known := ch.trDatas[rd.name]; !known { // an init segment that is sent again updates the entry
+		ch.trIDs = append(ch.trIDs, rd.name)
+		sort.Strings(ch.trIDs)
+	}
 	ch.trDatas[rd.name] = rd
-	ch.trIDs = append(ch.trIDs, rd.name)
-	sort.Strings(ch.trIDs)
 	ch.mu.Unlock()
 }
 
